@@ -426,7 +426,7 @@ func init() {
 		ID:    "C09",
 		Level: "exploration",
 		Rule: "cases are programs from an untyped generator (any expression kind in any operand, index, property, call-receiver, call-argument, loop-header and directive-argument position; @for with every subset of clauses absent and non-assignment init; bounded loops only) rendered with a data map holding every value kind, boundary integers, empty/non-ASCII strings, nil pointers/slices/maps and structs; every built-in on every receiver kind with every argument tuple (up to 3) drawn from boundary values; data maps with nil pointers and unsupported kinds planted at depth 0..3. " +
-			"Monitors: panic monitor (recover + stack), CPU/heap watchdog, and the contract 'output, or an error value that is a Textwire error with a line'. also special floats under every operator, 12 faults x 50 places of a template tree (reached and unreached), one call site over receivers of changing kinds, nesting depths 15..200, 16 rounds of concurrent evaluation with fresh names and struct types; invalid UTF-8 receivers, odd map key types, fault lines after LF/CRLF/CR; round 8: structs with unexported fields named outside ASCII; round 9: products wrapping around 2^64; concurrent replay; rounds 10-11: files in unusual parts, fault lines after multi-line tokens; rounds 12-13: failing pages through Response under every error-page configuration, 13 more fault expressions, @use inside blocks its layout renders; round 14: faults on literals seen fault-free before; round 15: almost-numeric and 255..257-item receivers, size ladder, byte-order-mark files; distinct_nontrivial = distinct (source, data shape) pairs that parsed and reached evaluation",
+			"Monitors: panic monitor (recover + stack), CPU/heap watchdog, and the contract 'output, or an error value that is a Textwire error with a line'. also special floats under every operator, 12 faults x 50 places of a template tree (reached and unreached), one call site over receivers of changing kinds, nesting depths 15..200, 16 rounds of concurrent evaluation with fresh names and struct types; invalid UTF-8 receivers, odd map key types, fault lines after LF/CRLF/CR; round 8: structs with unexported fields named outside ASCII; round 9: products wrapping around 2^64; concurrent replay; rounds 10-11: files in unusual parts, fault lines after multi-line tokens; rounds 12-13: failing pages through Response under every error-page configuration, 13 more fault expressions, @use inside blocks its layout renders; round 14: faults on literals seen fault-free before; round 15: almost-numeric and 255..257-item receivers, size ladder, byte-order-mark files; round 16: faults as only/first/last element of literals, second @elseif, faulty arguments on empty receivers; distinct_nontrivial = distinct (source, data shape) pairs that parsed and reached evaluation",
 		Assumptions: []string{
 			"counts are small, negative or absurdly large (a correct implementation never needs more than a few MiB); the gray zone of counts that are merely huge is not generated",
 			"errors from building the environment (unsupported data) carry no line by design and are only required to be error values",
